@@ -483,7 +483,13 @@ impl Ranges {
                     return value.populate(args, foreign_key, locale, key_path);
                 }
             }
-            unreachable!("plurals validity should already have been checked.");
+            // an integer range without fallback is valid, so a literal count can match no branch at all
+            Err(Error::CountArgNoMatch {
+                locale: locale.clone(),
+                key_path: key_path.to_owned(),
+                foreign_key: foreign_key.to_owned(),
+            }
+            .into())
         }
         fn try_from<T, U: TryFrom<T, Error = TryFromIntError>>(
             count: T,
